@@ -1,7 +1,8 @@
 (* C20 - today's code violates the property: witnesses for the two defective places, closed by vm_compute.
    Strings are encoded by rank: 'A' 'B' 'C' 'D' = 1 2 3 4. *)
-From Coq Require Import ZArith List Bool.
-From OG Require Import C20.Model C20.Proofs C20.Cover C20.ScanProofs C20.NullOrder.
+From Coq Require Import ZArith NArith List Bool.
+From OG Require Import C20.Model C20.Proofs C20.Cover C20.ScanProofs C20.NullOrder C20.BloomModel C20.BloomRepair.
+From OG Require C20.TokModel.
 Import ListNotations.
 Open Scope Z_scope.
 
@@ -110,3 +111,49 @@ Proof.
   - split; vm_compute; reflexivity.
 Qed.
 Print Assumptions C20_null_strictly_first_refuted.
+
+(* ---------- bloom-filter skip index: today's reader / writer (findings C20-bloom-gram-phrase, C20-bloom-nonascii-token-boundary) ----------
+   split table = {space, '/'}; hash positions of a token: two numbers computed from its bytes *)
+Open Scope nat_scope.
+Definition bsplit (b : N) : bool := ((b =? 32) || (b =? 47))%N.
+Definition bhash (t : list N) : list nat :=
+  [N.to_nat (fold_left N.add t 0%N mod 61); N.to_nat ((7 * fold_left N.add t 0 + N.of_nat (length t)) mod 59)%N].
+Definition one_row (v : list N) : list (row (list N)) := [fun c => if c =? 0 then Some v else None].
+
+(* (a) a phrase without a token: '/' matches the row "a/b" (SimpleTokenFinder: the phrase's own first and last byte are
+   boundaries) but today's hitExpr answers "absent" for an empty token list *)
+Theorem C20_bloom_notoken_refuted :
+  exists v p, TokModel.finder bsplit p v = true /\
+    bloom_kept (list N) bhash (list N) (TokModel.tokens bsplit) 0 (fun c => c =? 0)
+               (block_filter (list N) bhash (list N) (TokModel.tokens bsplit) 0 (one_row v)) (SAtom (PMatch (list N) 0 p)) = false.
+Proof. exists [97; 47; 98]%N, [47]%N. split; vm_compute; reflexivity. Qed.
+Print Assumptions C20_bloom_notoken_refuted.
+
+(* (b) gram lookups: today's reader looks a phrase of three tokens joined by the same separator up by ONE combined hash
+   (modelled as the token made of all bytes of the phrase); the writer inserted the three single tokens *)
+Definition gram_tokens (p : list N) : list (list N) :=
+  match TokModel.tokens bsplit p with
+  | t1 :: t2 :: t3 :: _ => [p]
+  | ts => ts
+  end.
+Theorem C20_bloom_gram_refuted :
+  exists v p, TokModel.finder bsplit p v = true /\
+    bloom_kept (list N) bhash (list N) gram_tokens 0 (fun c => c =? 0)
+               (block_filter (list N) bhash (list N) (TokModel.tokens bsplit) 0 (one_row v)) (SAtom (PMatch (list N) 0 p)) = false /\
+    bloom_kept_r (list N) bhash (list N) (TokModel.tokens bsplit) 0 (fun c => c =? 0)
+               (block_filter (list N) bhash (list N) (TokModel.tokens bsplit) 0 (one_row v)) (SAtom (PMatch (list N) 0 p)) = true.
+Proof. exists [98; 32; 102; 32; 103]%N, [98; 32; 102; 32; 103]%N. repeat split; vm_compute; reflexivity. Qed.
+Print Assumptions C20_bloom_gram_refuted.
+
+(* (c) non-ASCII text: the value "ab" + one 3-byte character is ONE byte-level token, the finder takes the non-ASCII byte
+   for a boundary and matches the phrase "ab"; the premise of the bloom theorems fails and the block is pruned - even by the
+   repaired READER as long as the WRITER tokenizes byte-wise (fix5.patch changes the writer's tokens) *)
+Theorem C20_bloom_nonascii_refuted :
+  exists v p, TokModel.finder bsplit p v = true /\ ~ incl (TokModel.tokens bsplit p) (TokModel.tokens bsplit v) /\
+    bloom_kept_r (list N) bhash (list N) (TokModel.tokens bsplit) 0 (fun c => c =? 0)
+               (block_filter (list N) bhash (list N) (TokModel.tokens bsplit) 0 (one_row v)) (SAtom (PMatch (list N) 0 p)) = false.
+Proof.
+  exists [97; 98; 229; 141; 142]%N, [97; 98]%N. split; [vm_compute; reflexivity|]. split; [|vm_compute; reflexivity].
+  intro H. specialize (H [97; 98]%N). vm_compute in H. destruct H as [H | H]; [now left | discriminate H | destruct H].
+Qed.
+Print Assumptions C20_bloom_nonascii_refuted.
